@@ -316,7 +316,9 @@ size_t carquet_bitpack_32(const uint32_t* values, size_t count,
             temp[j] = values[i + j];
         }
         size_t remaining_bytes = carquet_packed_size(count - i, bit_width);
-        carquet_bitpack8_32(temp, bit_width, output + bytes_written);
+        uint8_t packed[32];  /* a whole group; only the bytes that belong to the caller are copied out */
+        carquet_bitpack8_32(temp, bit_width, packed);
+        memcpy(output + bytes_written, packed, remaining_bytes);
         bytes_written += remaining_bytes;
     }
 
